@@ -21,9 +21,7 @@ TRACED = ("/kio/serial/", "/kio/_utils")
 
 
 def clear_caches():
-    from kio.serial import _parse, _serialize
-    _parse.entity_reader.cache_clear()
-    _serialize.entity_writer.cache_clear()
+    codec.reset_serial_state()
 
 
 class FailingSink:
@@ -120,6 +118,7 @@ class Sched:
 def run(ctx):
     from kio.serial import entity_reader, entity_writer
 
+    codec.snapshot_serial_state()
     rng = random.Random(ctx.seed)
     cl = codec.Classes()
     thorough = ctx.tier == "thorough"
@@ -199,7 +198,13 @@ def run(ctx):
         clear_caches()
         w, r = entity_writer(c), entity_reader(c)
         good = refs[n]
-        probe = FailingSink(10**9); w(probe, obj)
+        probe = FailingSink(10**9)
+        try:
+            w(probe, obj)
+        except Exception as e:  # noqa: BLE001
+            fails.append({"what": f"encoding to a sink that only offers write(b) fails: {type(e).__name__}: {e}",
+                          "class": cl.keys[i]})
+            continue
         nwrites = probe.n
         for k in range(min(nwrites, 400 if thorough else 80)):
             sink = FailingSink(k)
@@ -219,7 +224,13 @@ def run(ctx):
                               "value": values.render(a)[:2000], "k": k})
                 break
             nontrivial += 1
-        src = FailingSource(good, 10**9); r(src)
+        src = FailingSource(good, 10**9)
+        try:
+            r(src)
+        except Exception as e:  # noqa: BLE001
+            fails.append({"what": f"decoding from a source that only offers read(n) fails: {type(e).__name__}: {e}",
+                          "class": cl.keys[i]})
+            continue
         nreads = src.n
         for k in range(min(nreads, 400 if thorough else 80)):
             evals += 1
